@@ -257,6 +257,18 @@ theorem C16_forced_schedules_example :
         traceOk sc.1.p.cancel c.1.log = true := by
   decide
 
+/-- **Why `0 < W`.**  With `WithWorkerCount(0)` the life cycle Start, Submit, Shutdown, ShutdownComplete.Wait, WaitIsZero
+ends in a configuration where nobody can move: the task was accepted and counted, the dispatcher popped it and is
+blocked in its send on the unbuffered dispatch channel (nobody will ever receive), the shutdown is "complete" (no worker
+was ever added to the wait group) — and the counter stays at 1, the `WaitIsZero` caller asleep.  The conclusion of
+`C16_statement` fails, so its hypothesis `0 < p.W` cannot be dropped; the real code gives the same outcome (`sched
+zero-workers` of the harness). -/
+theorem C16_zero_workers_witness :
+    let c := scZeroWorkers.final
+    stuckB scZeroWorkers.p c = true ∧ c.1.pending = 1 ∧ c.1.running = false ∧ wg c.1 = 0 ∧ c.1.disp = .send 0 ∧
+      countPhase c.1 (· == .popped) = 1 ∧ clientsDone c = false ∧ traceOk false c.1.log = true := by
+  decide
+
 end Hive.WP
 
 /-! ### groups -/
@@ -441,15 +453,78 @@ theorem C16_skeleton_Counter_WaitIsBelow : skel_Counter_WaitIsBelow =
 theorem C16_skeleton_Group_CreatePool : skel_Group_CreatePool =
     ["func{", "if{", "call g.PendingChildrenCounter.Increase", "}else{", "if{",
      "call g.PendingChildrenCounter.Decrease", "}if", "}if", "}func",
-     "call pool.PendingTasksCounter.Subscribe", "call previousPool.IsRunning", "if{", "}if", "helper Start",
-     "return"] := by decide
+     "call pool.PendingTasksCounter.Subscribe", "call g.pools.Set", "call previousPool.IsRunning", "if{", "}if",
+     "helper Start", "return"] := by decide
 
 theorem C16_skeleton_Group_CreateGroup : skel_Group_CreateGroup =
     ["func{", "if{", "call g.PendingChildrenCounter.Increase", "}else{", "if{",
      "call g.PendingChildrenCounter.Decrease", "}if", "}if", "}func",
-     "call group.PendingChildrenCounter.Subscribe", "if{", "}if", "return"] := by decide
+     "call group.PendingChildrenCounter.Subscribe", "call g.groups.Set", "call previousGroup.IsShutdown", "if{", "}if",
+     "return"] := by decide
 
 theorem C16_skeleton_Group_WaitChildren : skel_Group_WaitChildren =
     ["call g.PendingChildrenCounter.WaitIsZero"] := by decide
+
+/-- `Group.Shutdown` = wait, then `shutdown`: the model's `shutdown g` is enabled only at a zero counter. -/
+theorem C16_skeleton_Group_Shutdown : skel_Group_Shutdown =
+    ["call g.PendingChildrenCounter.WaitIsZero", "call g.shutdown"] := by decide
+
+/-- `Group.shutdown`: the flag first (`flag g`), return if it was set, then the pools (`stop q`), then the sub-groups:
+the order `Hive.WPG.sdVisit` / the separate `flag` and `stop` steps of `Hive/Model/WorkerPoolGroupSd.lean` follow. -/
+theorem C16_skeleton_Group_shutdown : skel_Group_shutdown =
+    ["call g.isShutdown.Swap", "if{", "return", "}if", "func{", "call pool.Shutdown", "return", "}func",
+     "call g.pools.ForEach", "func{", "call group.shutdown", "return", "}func", "call g.groups.ForEach"] := by decide
+
+theorem C16_skeleton_Group_IsShutdown : skel_Group_IsShutdown = ["call g.isShutdown.Load", "return"] := by decide
+
+theorem C16_skeleton_Counter_Subscribe : skel_Counter_Subscribe =
+    ["if{", "func{", "}func", "return", "}if", "func{", "for{", "}for", "}func", "call c.subscribe", "func{",
+     "call c.unsubscribe", "}func", "return"] := by decide
+
+theorem C16_skeleton_Counter_subscribe : skel_Counter_subscribe =
+    ["lock c.subscribersMutex", "defer unlock c.subscribersMutex", "call c.subscribers.Set", "return"] := by decide
+
+theorem C16_skeleton_Counter_unsubscribe : skel_Counter_unsubscribe =
+    ["lock c.subscribersMutex", "defer unlock c.subscribersMutex", "call c.subscribers.Delete"] := by decide
+
+/-- The subscribers run inside `update`'s critical section (value mutex held, `C16_skeleton_Counter_update`), under
+the subscribers' read lock: the chain pool → group → … → root is one atomic operation of the model (`bump`). -/
+theorem C16_skeleton_Counter_notifySubscribers : skel_Counter_notifySubscribers =
+    ["rlock c.subscribersMutex", "defer runlock c.subscribersMutex", "func{", "return", "}func",
+     "call c.subscribers.ForEach"] := by decide
+
+theorem C16_skeleton_Counter_Get : skel_Counter_Get =
+    ["rlock c.valueMutex", "defer runlock c.valueMutex", "return"] := by decide
+
+/-- The foreign waiters of the model (`Op.waitAbove`): lock; while len <= n { elementAdded.Wait() }; unlock. -/
+theorem C16_skeleton_Stack_WaitSizeIsAbove : skel_Stack_WaitSizeIsAbove =
+    ["lock b.mutex", "defer unlock b.mutex", "for{", "call b.elementAdded.Wait", "}for"] := by decide
+
+/-! Type facts: the fields the model's state stands for, with their types — one pool mutex (an `RWMutex`), ONE
+life-cycle flag, a `WaitGroup` and a separate 32-bit `liveWorkers` counter, two channels; a group's flag is an atomic
+bool; a counter is one `int` under one value mutex with ONE condition per direction; the queue one list under one mutex
+with the `elementAdded` condition the dispatcher and the foreign waiters share. -/
+theorem C16_skeleton_type_WorkerPool : skel_type_WorkerPool =
+    ["struct", "Name string", "PendingTasksCounter *syncutils.Counter", "Queue *syncutils.Stack[*Task]",
+     "ShutdownComplete sync.WaitGroup", "isRunning bool", "dispatcherChan chan*Task", "shutdownSignal chanstruct{}",
+     "liveWorkers atomic.Int32", "workerCount int", "optPanicOnSubmitAfterShutdown bool",
+     "optCancelPendingTasksOnShutdown bool", "mutex syncutils.RWMutex"] := by decide
+
+theorem C16_skeleton_type_Task : skel_type_Task =
+    ["struct", "workerFunc func()", "doneCallback func()", "stackTrace string", "doneChan chantypes.Empty"] := by decide
+
+theorem C16_skeleton_type_Group : skel_type_Group =
+    ["struct", "PendingChildrenCounter *syncutils.Counter", "name string",
+     "pools *orderedmap.OrderedMap[string,*WorkerPool]", "groups *orderedmap.OrderedMap[string,*Group]", "root *Group",
+     "isShutdown atomic.Bool"] := by decide
+
+theorem C16_skeleton_type_Counter : skel_type_Counter =
+    ["struct", "value int", "valueMutex sync.RWMutex", "valueIncreasedCond *sync.Cond", "valueDecreasedCond *sync.Cond",
+     "subscribers *orderedmap.OrderedMap[uint64,func(oldValue,newValueint)]", "subscribersCounter uint64",
+     "subscribersMutex sync.RWMutex"] := by decide
+
+theorem C16_skeleton_type_Stack : skel_type_Stack =
+    ["struct", "elements *list.List", "mutex sync.RWMutex", "elementAdded *sync.Cond", "elementRemoved *sync.Cond"] := by
+  decide
 
 end Hive.WP
